@@ -14,6 +14,14 @@ func (l *Local) Readdir(offset uint64, count uint32) (p9.Dirents, error) {
 		cursor = uint64(0)
 	)
 
+	// Entries are numbered 1, 2, ... in directory order, and offset is the
+	// number of the last entry a previous call returned. The directory
+	// stream of l.file keeps its position between calls while cursor starts
+	// at zero: start over so that both count from the first entry.
+	if _, err := l.file.Seek(0, io.SeekStart); err != nil {
+		return nil, err
+	}
+
 	for len(p9Ents) < int(count) {
 		singleEnt, err := l.file.Readdirnames(1)
 
@@ -26,8 +34,9 @@ func (l *Local) Readdir(offset uint64, count uint32) (p9.Dirents, error) {
 		// we consumed an entry
 		cursor++
 
-		// cursor \in (offset, offset+count)
-		if cursor < offset || cursor > offset+uint64(count) {
+		// cursor \in (offset, offset+count]: entries up to and including
+		// offset were returned by earlier calls.
+		if cursor <= offset || cursor > offset+uint64(count) {
 			continue
 		}
 
